@@ -49,6 +49,11 @@ pub struct Local {
     /// exist to make a stream request time out before a phase that serves-then-cuts)
     #[serde(default)]
     pub expect_served: bool,
+    /// which fixed TCP remote of the client it connects to: 0 = port 7000, k > 0 = port 7200 + k
+    /// (a remote serves one pending connection at a time, so a crowd of waiting requests needs
+    /// as many remotes)
+    #[serde(default)]
+    pub remote: u16,
 }
 #[derive(Serialize, Deserialize, Clone, Debug)]
 pub struct C19Plan {
@@ -153,7 +158,7 @@ pub fn run(plan: &C19Plan, sched: &Sched) -> Outcome {
                             let t = now();
                             arr.borrow_mut().push((i, t));
                             let r = async {
-                                let mut c = TcpStream::connect("127.0.0.1:7000").await.map_err(|e| format!("local listener refused the connection: {e}"))?;
+                                let mut c = TcpStream::connect(if l.remote == 0 { "127.0.0.1:7000".to_string() } else { format!("127.0.0.1:{}", 7200 + l.remote) }).await.map_err(|e| format!("local listener refused the connection: {e}"))?;
                                 let data: Vec<u8> = (0..l.nbytes as u64).map(|j| pbyte(i, 0, j)).collect();
                                 c.write_all(&data).await.map_err(|e| format!("write: {e}"))?;
                                 c.shutdown().await.map_err(|e| format!("shutdown: {e}"))?;
@@ -220,7 +225,13 @@ pub fn run(plan: &C19Plan, sched: &Sched) -> Outcome {
                 let mut missing = None;
                 // the scripted server must be in place before the client's first attempt
                 tokio::time::sleep(ms(1)).await;
-                let client = spawn_client(&ClientCfg { server: format!("ws://127.0.0.1:{PORT}/ws"), remotes: if plan.udp_down > 0 { vec!["127.0.0.1:7000:127.0.0.1:9000".into(), "127.0.0.1:7100:127.0.0.1:9100/udp".into()] } else { vec!["127.0.0.1:7000:127.0.0.1:9000".into()] }, max_retry_count: plan.max_count, max_retry_interval: plan.max_iv, handshake_timeout_s: plan.hs_to_s, channel_timeout_s: plan.ch_to_s, psk: None, keepalive_ms: plan.keepalive_ms });
+                let client = spawn_client(&ClientCfg { server: format!("ws://127.0.0.1:{PORT}/ws"), remotes: {
+                    let mut v: Vec<String> = if plan.udp_down > 0 { vec!["127.0.0.1:7000:127.0.0.1:9000".into(), "127.0.0.1:7100:127.0.0.1:9100/udp".into()] } else { vec!["127.0.0.1:7000:127.0.0.1:9000".into()] };
+                    for k in 1..=plan.locals.iter().map(|l| l.remote).max().unwrap_or(0) {
+                        v.push(format!("127.0.0.1:{}:127.0.0.1:9000", 7200 + k));
+                    }
+                    v
+                }, max_retry_count: plan.max_count, max_retry_interval: plan.max_iv, handshake_timeout_s: plan.hs_to_s, channel_timeout_s: plan.ch_to_s, psk: None, keepalive_ms: plan.keepalive_ms });
                 let mut seen = 0usize;
                 let mut held: Vec<Box<dyn std::any::Any>> = vec![];
                 'script: for (phase, b) in plan.script.iter().enumerate() {
